@@ -1069,7 +1069,14 @@ static void cb_dnsrec(void *arg, ares_status_t status, size_t timeouts, const ar
       scan_rr_markers(rec, t, r);
     }
   }
+  World *w = c->w;
   complete(c, (int)status, (int)timeouts, r);
+  // the record belongs to the callback until it returns, whatever the callback did in between (started requests,
+  // cancelled, changed the servers): reading it again must be safe
+  if (rec && w->ch && !w->in_destroy) {
+    volatile size_t n = ares_dns_record_rr_cnt(rec, ARES_SECTION_ANSWER) + ares_dns_record_get_id(rec);
+    (void)n;
+  }
 }
 static void cb_legacy(void *arg, int status, int timeouts, unsigned char *abuf, int alen)
 {
